@@ -87,6 +87,10 @@ def classify(value):
 
 
 def judge(case):
+    if case.get('via_file'):
+        part = Partial()
+        _one(case, part, False)
+        return [(k, v[0]) for k, v in part.violations.items()]
     if 'deep' in case:
         part = work(('deep',))
         return [(k, v[0]) for k, v in part.violations.items()]
@@ -216,6 +220,15 @@ def seeds(two_nodes):
 
 
 def work(job):
+    try:
+        return _work(job)
+    finally:
+        if 'd' in _DIR:
+            import shutil  # pylint: disable=import-outside-toplevel
+            shutil.rmtree(_DIR.pop('d'), ignore_errors=True)
+
+
+def _work(job):
     kind = job[0]
     part = Partial()
     if kind == 'single':
@@ -224,7 +237,7 @@ def work(job):
             if k % nslots != idx:
                 continue
             mutated = apply_fault(copy.deepcopy(seed), path, op, arg)
-            case = {'json': mutated, 'faults': [[name, list(path), op, arg]]}
+            case = {'json': mutated, 'faults': [[name, list(path), op, arg]], 'via_file': not name.startswith('large')}
             _one(case, part, k % 1499 == 0)
             part.transitions += 1
     elif kind == 'pairs':
@@ -256,7 +269,7 @@ def work(job):
                               {'<class>': 'root', 'elements': [], 'working-directory': '/', 'comment': 1},
                               {'<class>': 'root', 'elements': [], 'working-directory': '/',
                                'comment': {'<class>': 'comment'}}]:
-            _one({'json': val, 'faults': [['toplevel']]}, part, True)
+            _one({'json': val, 'faults': [['toplevel']], 'via_file': True}, part, True)
             part.transitions += 1
     elif kind == 'deep':
         # SIZE: a value nested N levels deep (lists, dicts, mixed) at the places where an element, a types item or a
@@ -316,8 +329,40 @@ def work(job):
     return part
 
 
+_DIR = {}
+
+
+def classify_via_file(value):
+    """REPRESENTATION: the same document loaded from a file named by a pathlib.Path (and by bytes)."""
+    import os  # pylint: disable=import-outside-toplevel
+    import pathlib  # pylint: disable=import-outside-toplevel
+    import tempfile  # pylint: disable=import-outside-toplevel
+    from dznpy.ast import FileContents  # pylint: disable=import-outside-toplevel
+    from dznpy.json_ast import DznJsonAst  # pylint: disable=import-outside-toplevel
+    if 'd' not in _DIR or not os.path.isdir(_DIR['d']):
+        _DIR['d'] = tempfile.mkdtemp(prefix='vf_c15_')
+    path = os.path.join(_DIR['d'], f'doc{os.getpid()}.json')
+    with open(path, 'w', encoding='utf-8') as fh:
+        json.dump(value, fh)
+    for arg in (pathlib.Path(path), path.encode()):
+        try:
+            with contextlib.redirect_stdout(io.StringIO()):
+                res = DznJsonAst().load_file(arg).process()
+        except Exception as exc:  # pylint: disable=broad-except
+            if type(exc).__name__ not in ('DznJsonError', 'NamespaceIdsTypeError'):
+                return type(exc).__name__, f'load_file({type(arg).__name__}): {exc!r}'
+            continue
+        if not isinstance(res, FileContents):
+            return 'non-FileContents:' + type(res).__name__, ''
+    return 'ok', ''
+
+
 def _one(case, part, sample):
     verdict, detail = classify(case['json'])
+    if case.get('via_file') and verdict in ('result', 'DznJsonError', 'NamespaceIdsTypeError'):
+        fverdict, fdetail = classify_via_file(case['json'])
+        if fverdict != 'ok':
+            verdict, detail = fverdict, fdetail
     part.evaluations += 1
     part.states += 1
     part.outcome(verdict)
